@@ -48,14 +48,17 @@ theorem emitModSib_index_parts (c : Model.X86.Ctx) (pre : List (BitVec 8)) (ao :
     split <;> simp_all
 
 /-- model-side `[base64 + index64 * 2^sh + disp]` operand -/
-def memBaseIndex (size : Nat) (rb rx : BitVec 32) (sh : Nat) (d : BitVec 64) (seg : Nat := 0) : Mem :=
-  { size := size, baseType := 6, baseId := rb.toNat, indexType := 6, indexId := rx.toNat, shift := sh, offset := d, seg := seg, bcst := 0, addrType := 0 }
+def memBaseIndex (size : Nat) (rb rx : BitVec 32) (sh : Nat) (d : BitVec 64) (seg : Nat := 0) (a32 : Bool := false) : Mem :=
+  { size := size, baseType := (if a32 then 5 else 6), baseId := rb.toNat, indexType := (if a32 then 5 else 6), indexId := rx.toNat, shift := sh, offset := d, seg := seg, bcst := 0, addrType := 0 }
 
 /-- spec-side operand -/
-def memOpBaseIndex (size : Nat) (rb rx : BitVec 32) (sh : Nat) (d : BitVec 64) (seg : Nat := 0) : MemOp :=
-  { size := size, baseKind := .gpq, baseId := rb.toNat, indexKind := .gpq, indexId := rx.toNat, shift := sh, disp := d, seg := seg, bcst := 0, addrType := 0 }
+def memOpBaseIndex (size : Nat) (rb rx : BitVec 32) (sh : Nat) (d : BitVec 64) (seg : Nat := 0) (a32 : Bool := false) : MemOp :=
+  { size := size, baseKind := (if a32 then .gpd else .gpq), baseId := rb.toNat, indexKind := (if a32 then .gpd else .gpq), indexId := rx.toNat, shift := sh, disp := d, seg := seg, bcst := 0, addrType := 0 }
 
 theorem memInfo_gp64_gp64 : memInfo 6 6 = 0x0F#32 := by decide
+theorem memInfo_gp32_gp32 : memInfo 5 5 = 0x8F#32 := by decide
+/-- `rm_info` of a base + index operand -/
+def rmInfoIdx (a32 : Bool) : BitVec 32 := if a32 then 0x8F#32 else 0x0F#32
 
 /-- the prefix word `x` of `EmitVexEvexM` for a base + index operand -/
 def xMbx (opcode reg vvvvv rb rx : BitVec 32) : BitVec 32 :=
@@ -69,22 +72,32 @@ theorem xMbx_eq_xR (opcode reg vvvvv rb rx : BitVec 32) (hb : rb < 16#32) (hx : 
     xMbx opcode reg vvvvv rb rx = xR opcode 0#32 reg vvvvv (xbOf rb rx) 0#32 := by
   simp only [xMbx, xR, xbOf]; bv_decide
 
-theorem emitVexEvexM_index_eq (c : Model.X86.Ctx) (opcode reg vvvvv rb rx : BitVec 32) (size sh : Nat) (d imm : BitVec 64) (n : Nat) (seg : Nat)
+theorem emitVexEvexM_index_eq (c : Model.X86.Ctx) (opcode reg vvvvv rb rx : BitVec 32) (size sh : Nat) (d imm : BitVec 64) (n : Nat) (seg : Nat) (a32 : Bool)
     (hm : c.mode64 = true) (hpe : c.preferEvex = false) (hk : c.extraId = 0#32) (hvs : c.vsib = false) :
-    emitVexEvexM c opcode 0#32 (reg + (vvvvv <<< 7)) (memBaseIndex size rb rx sh d seg) imm n =
+    emitVexEvexM c opcode 0#32 (reg + (vvvvv <<< 7)) (memBaseIndex size rb rx sh d seg a32) imm n =
       (match vexEvexMPrefix c (if c.vexFlag then xMbx opcode reg vvvvv rb rx else xMbx opcode reg vvvvv rb rx ||| 0x80000000#32) opcode 0#32
-          (memBaseIndex size rb rx sh d seg) with
+          (memBaseIndex size rb rx sh d seg a32) with
        | .error e => .error e
-       | .ok v => emitModSib c (segmentPrefix seg ++ v.1) (segmentPrefix seg).length v.2 0#32 ((reg + (vvvvv <<< 7)) &&& 7#32) rb rx 0x0F#32 (memBaseIndex size rb rx sh d seg) imm n false) := by
+       | .ok v => emitModSib c (segmentPrefix seg ++ aoBytes a32 ++ v.1) (segmentPrefix seg).length v.2 0#32 ((reg + (vvvvv <<< 7)) &&& 7#32) rb rx
+                    (rmInfoIdx a32) (memBaseIndex size rb rx sh d seg a32) imm n false) := by
   unfold emitVexEvexM
-  simp only [memBaseIndex, xMbx]
-  simp only [rtLabel, hk, hpe, hvs, memInfo_gp64_gp64, Model.X86.Ctx.aoMask, hm, oZMask, oER, oSAE, oVex, oVex3]
-  simp only [BitVec.ofNat_toNat, BitVec.setWidth_eq, BitVec.zero_and, BitVec.zero_or, BitVec.or_zero, bne_self_eq_false, Bool.false_eq_true, ↓reduceIte,
-    Bool.false_and, gt_iff_lt, Nat.lt_irrefl, Nat.not_lt_zero, BitVec.zero_shiftLeft, BitVec.and_zero, bind, Except.bind, Bool.not_false,
-    show (1 < 6) = True from by decide, show (0x0F#32 &&& 0x80#32 != 0#32) = false from by decide, List.nil_append, List.length_nil, List.append_nil,
-    show ((0:Nat) != 0) = false from by decide]
-  generalize vexEvexMPrefix c _ opcode 0#32 _ = r
-  cases r <;> rfl
+  cases a32
+  · simp only [memBaseIndex, xMbx, aoBytes, rmInfoIdx, Bool.false_eq_true, ↓reduceIte]
+    simp only [rtLabel, hk, hpe, hvs, memInfo_gp64_gp64, Model.X86.Ctx.aoMask, hm, oZMask, oER, oSAE, oVex, oVex3]
+    simp only [BitVec.ofNat_toNat, BitVec.setWidth_eq, BitVec.zero_and, BitVec.zero_or, BitVec.or_zero, bne_self_eq_false, Bool.false_eq_true, ↓reduceIte,
+      Bool.false_and, gt_iff_lt, Nat.lt_irrefl, Nat.not_lt_zero, BitVec.zero_shiftLeft, BitVec.and_zero, bind, Except.bind, Bool.not_false,
+      show (1 < 6) = True from by decide, show (0x0F#32 &&& 0x80#32 != 0#32) = false from by decide, List.nil_append, List.length_nil, List.append_nil,
+      show ((0:Nat) != 0) = false from by decide]
+    generalize vexEvexMPrefix c _ opcode 0#32 _ = r
+    cases r <;> rfl
+  · simp only [memBaseIndex, xMbx, aoBytes, rmInfoIdx, ↓reduceIte]
+    simp only [rtLabel, hk, hpe, hvs, memInfo_gp32_gp32, Model.X86.Ctx.aoMask, hm, oZMask, oER, oSAE, oVex, oVex3]
+    simp only [BitVec.ofNat_toNat, BitVec.setWidth_eq, BitVec.zero_and, BitVec.zero_or, BitVec.or_zero, bne_self_eq_false, Bool.false_eq_true, ↓reduceIte,
+      Bool.false_and, gt_iff_lt, Nat.lt_irrefl, Nat.not_lt_zero, BitVec.zero_shiftLeft, BitVec.and_zero, bind, Except.bind, Bool.not_false,
+      show (1 < 5) = True from by decide, show (0x8F#32 &&& 0x80#32 != 0#32) = true from by decide, List.nil_append, List.length_nil, List.append_nil,
+      show ((0:Nat) != 0) = false from by decide]
+    generalize vexEvexMPrefix c _ opcode 0#32 _ = r
+    cases r <;> rfl
 
 /-- the prefix part without broadcast and without a VSIB index ≥ 16: like `vexEvexMPrefix_nobcst`, the X bit (bit 6) may be set -/
 theorem vexEvexMPrefix_nobcstX (c : Model.X86.Ctx) (x opcode : BitVec 32) (m : Mem) (hx20 : x &&& 0x00180000#32 = 0#32) :
@@ -145,11 +158,11 @@ theorem evexCdOpcode_eq32 (opcode reg vvvvv xb : BitVec 32) (hr : reg < 32#32) (
 /-- the monitor's memory check on the index form's parts -/
 theorem idxParts_checkMem (ctx : Spec.X86.Ctx) (rule : Rule) (p : Parsed) (o7 rb rx s : BitVec 32) (size sh : Nat) (d : BitVec 64)
     (hm64 : ctx.mode64 = true) (ho : o7 < 8#32) (hb : rb < 16#32) (hx : rx < 16#32) (hx4 : rx ≠ 4#32) (hsh : sh < 4) (hs6 : s ≤ 6#32)
-    (seg : Nat) (pfx : List (BitVec 8)) (h67 : pfx.contains 0x67#8 = false)
+    (seg : Nat) (a32 : Bool) (pfx : List (BitVec 8)) (h67 : pfx.contains 0x67#8 = a32)
     (F : MemFields p pfx (idxMb o7 (memVariant (rb &&& 7#32) (d.truncate 32) s)) (some (idxSib (BitVec.ofNat 32 sh) (rx &&& 7#32) (rb &&& 7#32)))
            (memDisp (d.truncate 32) s (memVariant (rb &&& 7#32) (d.truncate 32) s)) (rb.getLsbD 3) (rx.getLsbD 3))
     (hN : (if p.vexKind == 4 then disp8N rule p else 1) = 2 ^ s.toNat) :
-    checkMem ctx rule p (memOpBaseIndex size rb rx sh d seg) = .ok () := by
+    checkMem ctx rule p (memOpBaseIndex size rb rx sh d seg a32) = .ok () := by
   obtain ⟨hpm, hps, hpd, hpv, hpp, hpa, hpB, hpX⟩ := F
   have hr7 : rb &&& 7#32 < 8#32 := by bv_decide
   have hx7 : rx &&& 7#32 < 8#32 := by bv_decide
@@ -167,7 +180,7 @@ theorem idxParts_checkMem (ctx : Spec.X86.Ctx) (rule : Rule) (p : Parsed) (o7 rb
   have hmodne : bits (idxMb o7 v) 6 2 ≠ 3 := by rw [fmod]; omega
   have hbaseNum := regNum_base rb hb p.B hpB
   have hidxNum := regNum_base rx hx p.X hpX
-  refine checkMem_index64 ctx rule p (memOpBaseIndex size rb rx sh d seg) _ _ hm64 (by rw [hpp]; exact h67) hpa hpm hmodne rfl rfl hps ?_ ?_ ?_ ?_ ?_ ?_
+  refine checkMem_index64 ctx rule p (memOpBaseIndex size rb rx sh d seg a32) _ _ a32 hm64 (by rw [hpp]; exact h67) hpa hpm hmodne rfl rfl hps ?_ ?_ ?_ ?_ ?_ ?_
   · intro ⟨h0, h5⟩
     rw [fmod] at h0
     rw [fsb] at h5
@@ -182,16 +195,16 @@ theorem idxParts_checkMem (ctx : Spec.X86.Ctx) (rule : Rule) (p : Parsed) (o7 rb
   · exact fsc
   · show decodedDisp rule p = _
     simp only [decodedDisp, hpd, hpv, hN]
-    have : (memOpBaseIndex size rb rx sh d seg).disp.toNat % 2 ^ 32 = (d.truncate 32 : BitVec 32).toNat := by simp [memOpBaseIndex, BitVec.toNat_setWidth]
+    have : (memOpBaseIndex size rb rx sh d seg a32).disp.toNat % 2 ^ 32 = (d.truncate 32 : BitVec 32).toNat := by simp [memOpBaseIndex, BitVec.toNat_setWidth]
     rw [this]
     exact hmd
 
 /-- `EmitVexEvexM` on `[base64 + index64 * scale + disp]`: the complete output -/
-theorem emitVexEvexM_index_bytes (c : Model.X86.Ctx) (opcode reg vvvvv rb rx : BitVec 32) (size sh : Nat) (d imm : BitVec 64) (n : Nat) (seg : Nat)
+theorem emitVexEvexM_index_bytes (c : Model.X86.Ctx) (opcode reg vvvvv rb rx : BitVec 32) (size sh : Nat) (d imm : BitVec 64) (n : Nat) (seg : Nat) (a32 : Bool)
     (hm : c.mode64 = true) (hpe : c.preferEvex = false) (hk : c.extraId = 0#32) (hvs : c.vsib = false)
     (hr : reg < 32#32) (hv : vvvvv < 32#32) (hb : rb < 16#32) (hx : rx < 16#32) (hx4 : rx ≠ 4#32) (hxop : opcode &&& 0x800#32 = 0#32) :
-    emitVexEvexM c opcode 0#32 (reg + (vvvvv <<< 7)) (memBaseIndex size rb rx sh d seg) imm n =
-      .ok (segmentPrefix seg ++ ((if c.vexFlag = false ∨ xR opcode 0#32 reg vvvvv (xbOf rb rx) 0#32 &&& 0x00D78110#32 ≠ 0#32 then
+    emitVexEvexM c opcode 0#32 (reg + (vvvvv <<< 7)) (memBaseIndex size rb rx sh d seg a32) imm n =
+      .ok ((segmentPrefix seg ++ aoBytes a32) ++ ((if c.vexFlag = false ∨ xR opcode 0#32 reg vvvvv (xbOf rb rx) 0#32 &&& 0x00D78110#32 ≠ 0#32 then
               le32 (evexWord (xR opcode 0#32 reg vvvvv (xbOf rb rx) 0#32) opcode) ++ [opcode.truncate 8] ++
                 (idxMb ((reg + (vvvvv <<< 7)) &&& 7#32) (memVariant (rb &&& 7#32) (d.truncate 32) (cdShiftOf (evexCdOpcodeOf opcode))) ::
                   ((some (idxSib (BitVec.ofNat 32 sh) (rx &&& 7#32) (rb &&& 7#32))).toList ++
@@ -205,15 +218,15 @@ theorem emitVexEvexM_index_bytes (c : Model.X86.Ctx) (opcode reg vvvvv rb rx : B
                 (idxMb ((reg + (vvvvv <<< 7)) &&& 7#32) (memVariant (rb &&& 7#32) (d.truncate 32) 0#32) ::
                   ((some (idxSib (BitVec.ofNat 32 sh) (rx &&& 7#32) (rb &&& 7#32))).toList ++ memDs rb (d.truncate 32) 0#32))) ++
            emitImmediate imm n)) := by
-  have hoff : (memBaseIndex size rb rx sh d seg).offLo32 = d.truncate 32 := rfl
-  have hshift : (memBaseIndex size rb rx sh d seg).shift = sh := rfl
+  have hoff : (memBaseIndex size rb rx sh d seg a32).offLo32 = d.truncate 32 := rfl
+  have hshift : (memBaseIndex size rb rx sh d seg a32).shift = sh := rfl
   have hxb : xbOf rb rx < 32#32 := by simp only [xbOf]; bv_decide
   have hcd := evexCdOpcode_eq32 opcode reg vvvvv (xbOf rb rx) hr hv hxb hxop
   simp only [evexCdOpcode] at hcd
   have hparts := fun (pre : List (BitVec 8)) (op : BitVec 32) =>
-    emitModSib_index_parts c pre (segmentPrefix seg).length op 0#32 ((reg + (vvvvv <<< 7)) &&& 7#32) rb rx 0x0F#32 (memBaseIndex size rb rx sh d seg) imm n
-      (by decide) (by decide) (by decide) hx4
-  rw [emitVexEvexM_index_eq c opcode reg vvvvv rb rx size sh d imm n seg hm hpe hk hvs]
+    emitModSib_index_parts c pre (segmentPrefix seg).length op 0#32 ((reg + (vvvvv <<< 7)) &&& 7#32) rb rx (rmInfoIdx a32) (memBaseIndex size rb rx sh d seg a32) imm n
+      (by cases a32 <;> decide) (by cases a32 <;> decide) (by cases a32 <;> decide) hx4
+  rw [emitVexEvexM_index_eq c opcode reg vvvvv rb rx size sh d imm n seg a32 hm hpe hk hvs]
   have hx31 : xMbx opcode reg vvvvv rb rx &&& 0x80180000#32 = 0#32 := by simp only [xMbx, extractLLMMMMM, kLL_Mask, kMM_Mask, oEvex]; bv_decide
   cases hvf : c.vexFlag
   · have hx20 : (xMbx opcode reg vvvvv rb rx ||| 0x80000000#32) &&& 0x00180000#32 = 0#32 := by bv_decide
@@ -246,18 +259,18 @@ theorem emitVexEvexM_index_bytes (c : Model.X86.Ctx) (opcode reg vvvvv rb rx : B
         rw [hparts, hoff, hshift, cdShift_cleared]
         simp [memDs]
 
-/-- the address form `seg:[base64 + index64 * 2^sh + disp]`: ANY segment override, ALL bases 0..15, ALL indexes 0..15 except rSP, ALL scales, ALL displacements -/
-theorem addrForm_index (c : Model.X86.Ctx) (ctx : Spec.X86.Ctx) (rb rx : BitVec 32) (size sh : Nat) (d : BitVec 64) (seg : Nat)
+/-- the address form `seg:[base + index * 2^sh + disp]` with 64-bit (or - `a32` - 32-bit, 67 prefix) registers: ANY segment override, ALL bases 0..15, ALL indexes 0..15 except rSP, ALL scales, ALL displacements -/
+theorem addrForm_index (c : Model.X86.Ctx) (ctx : Spec.X86.Ctx) (rb rx : BitVec 32) (size sh : Nat) (d : BitVec 64) (seg : Nat) (a32 : Bool)
     (hm : c.mode64 = true) (hpe : c.preferEvex = false) (hk : c.extraId = 0#32) (hvs : c.vsib = false)
     (hm64 : ctx.mode64 = true) (hb : rb < 16#32) (hx : rx < 16#32) (hx4 : rx ≠ 4#32) (hsh : sh < 4) :
-    AddrForm c ctx (memBaseIndex size rb rx sh d seg) (memOpBaseIndex size rb rx sh d seg) (segmentPrefix seg) (xbOf rb rx)
+    AddrForm c ctx (memBaseIndex size rb rx sh d seg a32) (memOpBaseIndex size rb rx sh d seg a32) (segmentPrefix seg ++ aoBytes a32) (xbOf rb rx)
       (fun o7 s => idxMb o7 (memVariant (rb &&& 7#32) (d.truncate 32) s))
       (fun _ _ => some (idxSib (BitVec.ofNat 32 sh) (rx &&& 7#32) (rb &&& 7#32)))
       (fun _ s => memDs rb (d.truncate 32) s) := by
   have hr7 : rb &&& 7#32 < 8#32 := by bv_decide
   have hx7 : rx &&& 7#32 < 8#32 := by bv_decide
-  obtain ⟨hpl, hpc, h67⟩ := segPfx_ok seg (memOpBaseIndex size rb rx sh d seg) rfl rfl
-  refine ⟨by simp only [xbOf]; bv_decide, hpl, hpc, rfl, rfl, ?_, ?_, ?_⟩
+  obtain ⟨hpl, hpc, h67⟩ := segPfx_ok seg a32 (memOpBaseIndex size rb rx sh d seg a32) rfl (by cases a32 <;> rfl)
+  refine ⟨by simp only [xbOf]; bv_decide, hpl, hpc, by cases a32 <;> rfl, rfl, ?_, ?_, ?_⟩
   · intro o7 s ho
     have hvlt := memVariant_lt (rb &&& 7#32) (d.truncate 32) s
     have hv5 : memVariant (rb &&& 7#32) (d.truncate 32) s = 0 → rb &&& 7#32 ≠ 5#32 := by
@@ -285,9 +298,9 @@ theorem addrForm_index (c : Model.X86.Ctx) (ctx : Spec.X86.Ctx) (rb rx : BitVec 
     have h3 : (xbOf rb rx).getLsbD 3 = rb.getLsbD 3 := by simp only [xbOf]; bv_decide
     have h4 : (xbOf rb rx).getLsbD 4 = rx.getLsbD 3 := by simp only [xbOf]; bv_decide
     rw [h3, h4] at F
-    exact idxParts_checkMem ctx rule p o7 rb rx s size sh d hm64 ho hb hx hx4 hsh hs6 seg _ h67 F hN
+    exact idxParts_checkMem ctx rule p o7 rb rx s size sh d hm64 ho hb hx hx4 hsh hs6 seg a32 _ h67 F hN
   · intro opcode reg vvvvv imm n hr hv hxop
-    exact emitVexEvexM_index_bytes c opcode reg vvvvv rb rx size sh d imm n seg hm hpe hk hvs hr hv hb hx hx4 hxop
+    exact emitVexEvexM_index_bytes c opcode reg vvvvv rb rx size sh d imm n seg a32 hm hpe hk hvs hr hv hb hx hx4 hxop
 
 /-! ### `[rip + disp32]` -/
 
@@ -321,9 +334,9 @@ theorem emitVexEvexM_rip_eq (c : Model.X86.Ctx) (opcode reg vvvvv : BitVec 32) (
     emitVexEvexM c opcode 0#32 (reg + (vvvvv <<< 7)) (memRip size d seg) imm n =
       (match vexEvexMPrefix c (if c.vexFlag then xMb opcode reg vvvvv 0#32 else xMb opcode reg vvvvv 0#32 ||| 0x80000000#32) opcode 0#32 (memRip size d seg) with
        | .error e => .error e
-       | .ok v => emitModSib c (segmentPrefix seg ++ v.1) (segmentPrefix seg).length v.2 0#32 ((reg + (vvvvv <<< 7)) &&& 7#32) 0#32 0#32 0x2C#32 (memRip size d seg) imm n false) := by
+       | .ok v => emitModSib c (segmentPrefix seg ++ aoBytes false ++ v.1) (segmentPrefix seg).length v.2 0#32 ((reg + (vvvvv <<< 7)) &&& 7#32) 0#32 0#32 0x2C#32 (memRip size d seg) imm n false) := by
   unfold emitVexEvexM
-  simp only [memRip, xMb]
+  simp only [memRip, xMb, aoBytes, Bool.false_eq_true, ↓reduceIte]
   simp only [rtLabel, hk, hpe, hvs, memInfo_rip, Model.X86.Ctx.aoMask, hm, oZMask, oER, oSAE, oVex, oVex3]
   simp only [BitVec.ofNat_toNat, BitVec.setWidth_eq, BitVec.zero_and, BitVec.zero_or, BitVec.or_zero, bne_self_eq_false, Bool.false_eq_true, ↓reduceIte,
     Bool.false_and, gt_iff_lt, Nat.lt_irrefl, Nat.not_lt_zero, BitVec.zero_shiftLeft, BitVec.and_zero, bind, Except.bind, Bool.not_false,
@@ -335,8 +348,8 @@ theorem emitVexEvexM_rip_eq (c : Model.X86.Ctx) (opcode reg vvvvv : BitVec 32) (
 /-- the address form `seg:[rip + disp32]`: ANY segment override, ALL displacements (the encoder uses the low 32 bits) -/
 theorem addrForm_rip (c : Model.X86.Ctx) (ctx : Spec.X86.Ctx) (size : Nat) (d : BitVec 64) (seg : Nat)
     (hm : c.mode64 = true) (hpe : c.preferEvex = false) (hk : c.extraId = 0#32) (hvs : c.vsib = false) (hm64 : ctx.mode64 = true) :
-    AddrForm c ctx (memRip size d seg) (memOpRip size d seg) (segmentPrefix seg) 0#32 (fun o7 _ => ripMb o7) (fun _ _ => none) (fun _ _ => le32 (d.truncate 32)) := by
-  obtain ⟨hpl, hpc, h67⟩ := segPfx_ok seg (memOpRip size d seg) rfl (by simp [wantedAddrSize, memOpRip])
+    AddrForm c ctx (memRip size d seg) (memOpRip size d seg) (segmentPrefix seg ++ aoBytes false) 0#32 (fun o7 _ => ripMb o7) (fun _ _ => none) (fun _ _ => le32 (d.truncate 32)) := by
+  obtain ⟨hpl, hpc, h67⟩ := segPfx_ok seg false (memOpRip size d seg) rfl (by simp [wantedAddrSize, memOpRip])
   refine ⟨by decide, hpl, hpc, rfl, rfl, ?_, ?_, ?_⟩
   · intro o7 s ho
     obtain ⟨f1, f2, f3⟩ := ripMb_factsBV o7 ho
